@@ -315,6 +315,10 @@ func closeLeaked() {
 }
 
 func main() {
+	if len(os.Args) >= 5 && os.Args[1] == "--c01-child" {
+		childMain(os.Args[2:])
+		return
+	}
 	r := vh.Start("C01")
 	defer r.Finish()
 	api.DisableConfigDir()
@@ -331,4 +335,5 @@ func main() {
 	partWholeOps(r)
 	partMultiFill(r)
 	partAttachments(r)
+	partStraceFchmod(r)
 }
